@@ -294,6 +294,7 @@ type c11Case struct {
 	rowsSeen []int
 	colsSeen map[int]bool
 	merges   int
+	x14      bool
 	mrects   [][4]int
 	table    bool
 	flushed  bool
@@ -831,6 +832,8 @@ func c11cellTrees(part []byte) ([]string, error) {
 	}
 }
 
+var c11attrGroup = regexp.MustCompile(`\[[^\]]*\]`)
+
 func c11sheetPart(zipped []byte) ([]byte, error) {
 	zr, err := zip.NewReader(bytes.NewReader(zipped), int64(len(zipped)))
 	if err != nil {
@@ -892,8 +895,17 @@ func (c *c11Case) trees() {
 		c.fail("celltree:marshal-differs", fmt.Sprintf("writeCell wrote %d cells, the marshaller %d after a load/save cycle", len(ta), len(tb)), ln)
 		return
 	}
+	// the oracle compares elements with their attributes as a finite map (order is not part of the infoset);
+	// the transcript above keeps the document order
+	sortAttrs := func(t string) string {
+		return c11attrGroup.ReplaceAllStringFunc(t, func(g string) string {
+			p := strings.Split(g[1:len(g)-1], ";")
+			sort.Strings(p)
+			return "[" + strings.Join(p, ";") + "]"
+		})
+	}
 	for i := range ta {
-		if ta[i] != tb[i] {
+		if sortAttrs(ta[i]) != sortAttrs(tb[i]) {
 			c.fail("celltree:marshal-differs", fmt.Sprintf("cell %d: writeCell %s, encoding/xml %s", i, c11short(ta[i]), c11short(tb[i])), ln)
 			return
 		}
@@ -1181,6 +1193,26 @@ func (c *c11Case) compare() {
 	if e1 != nil || e2 != nil || tc(t1) != tc(t2) {
 		c.fail("table:list", fmt.Sprintf("tables: stream [%s] (%v), in-memory [%s] (%v)", tc(t1), e1, tc(t2), e2), 0)
 	}
+	// conditional formats set on the worksheet before the stream writer was created
+	if c.x14 {
+		f1, e1 := sg.GetConditionalFormats(c11Sheet)
+		f2, e2 := mg.GetConditionalFormats(c11Sheet)
+		keys := func(m map[string][]xl.ConditionalFormatOptions) string {
+			ks := []string{}
+			for k, v := range m {
+				ks = append(ks, fmt.Sprintf("%s:%+v", k, v))
+			}
+			sort.Strings(ks)
+			return strings.Join(ks, " | ")
+		}
+		if e1 != nil || e2 != nil || keys(f1) != keys(f2) {
+			sig := "sheet:condfmt"
+			if len(f1) == len(f2) && e1 == nil && e2 == nil {
+				sig = "sheet:condfmt-x14-ext" // same rules, the extLst half (x14 data bar attributes) differs
+			}
+			c.fail(sig, fmt.Sprintf("conditional formats: stream {%s} (%v), in-memory {%s} (%v)", keys(f1), e1, keys(f2), e2), 0)
+		}
+	}
 }
 
 // c11RunCase executes one script. Returns the case for statistics.
@@ -1211,6 +1243,15 @@ func c11RunCase(r *Run, lines []string) *c11Case {
 			r.Notes = append(r.Notes, "style ids diverge between the twin files")
 		}
 		c.styles = append(c.styles, a)
+	}
+	if len(hdr) > 3 && hdr[3] == "x14" {
+		// worksheet settings made before the stream writer is created: conditional formats incl. an x14 data bar
+		// (lives in the worksheet's extLst) — the stream writer carries the worksheet's fields over by reflection
+		c.x14 = true
+		for _, f := range []*xl.File{c.sf, c.mf} {
+			_ = f.SetConditionalFormat(c11Sheet, "A1:A3", []xl.ConditionalFormatOptions{{Type: "data_bar", Criteria: "=", MinType: "num", MaxType: "num", MinValue: "0", MaxValue: "10", BarColor: "#638EC6", BarBorderColor: "#0000FF", BarSolid: true}})
+			_ = f.SetConditionalFormat(c11Sheet, "B1:B3", []xl.ConditionalFormatOptions{{Type: "top", Criteria: "=", Value: "2"}})
+		}
 	}
 	sw, err := c.sf.NewStreamWriter(c11Sheet)
 	if err != nil {
@@ -1631,6 +1672,12 @@ func c11witnesses() [][]string {
 		{"case rich 0", "setrow " + hx("A1") + " - s" + hx("a\xffb") + " y" + hx("\xc3") + " s" + hx("ok"), "flush"},
 		// the last row of the grid, once per run (the in-memory twin materialises a million row slots)
 		{"case model 1", "setrow " + hx("A1") + " - i1", "setrow " + hx("B1048576") + " 1,60,0,0 i2 s" + hx("last") + " n C1," + hx("A1+1") + ",n", "setrow " + hx("A1048577") + " - i3", "flush"},
+		// worksheet-level settings made before NewStreamWriter: the x14 half of a data bar lives in extLst
+		{"case rich 0 x14", "setrow " + hx("A1") + " - i1 i5", "setrow " + hx("A2") + " - i7 i3", "flush"},
+		// row style x column style x cell style on the same cells (row beats column, cell beats both)
+		{"case model 3", "colstyle 2 4 1", "setrow " + hx("A1") + " 2,0,0,0 i1 i2 C3,-,i3 C0,-,i4 n i6", "setrow " + hx("B2") + " - i1 C3,-,i2 C0,-,i3 i4", "flush"},
+		// a rejected FIRST row after column widths and panes, then accepted rows
+		{"case model 0", "colwidth 1 2 80", "panes 1,0,1", "setrow " + hx("XFD1") + " - i1 i2", "setrow " + hx("A1") + " 0,2000,0,0 i1", "setrow " + hx("A1") + " - i1 i2", "setrow " + hx("A2") + " - i3", "flush"},
 		{"case model 0", "flush"},
 		{"case model 0", "merge " + hx("A1") + " " + hx("B2"), "flush"},
 	}
